@@ -439,16 +439,16 @@ def check(run):
                 "ignore_required / always_no_input; (R05d) parse_addition is the ordered switch False -> ExceedError, "
                 "falsy -> drop, no type -> keep, type -> convert; (R05e) no_output gates before mapping stores, option "
                 "precedence in get_default, field lookup order.")
-    r05a(run)
-    r05b(run)
-    r05c(run)
-    r05d(run)
-    r05e(run)
-    r05f(run)
-    r05g(run)
-    r05h(run)
+    run.rule(r05a, run)
+    run.rule(r05b, run)
+    run.rule(r05c, run)
+    run.rule(r05d, run)
+    run.rule(r05e, run)
+    run.rule(r05f, run)
+    run.rule(r05g, run)
+    run.rule(r05h, run)
     # shared with C06: the alias tables are rebuilt from the current fields (an alias dropped by a re-declaration is gone)
     run.rules_run.append("R06h")
-    c06.r06h(run)
+    run.rule(c06.r06h, run)
     pd, A, B = c06.siblings(run)
-    c06.r06f(run, A, B)
+    run.rule(c06.r06f, run, A, B)
